@@ -281,7 +281,17 @@ func c03RandomOps(r *Rng) string {
 	return string(b)
 }
 
-func c03EntryStream(cfg Config) *Report {
+// c03EntryRun is the running entry-point stream: its report and the two ways of adding a case to it (the
+// fixed all-entry-points history / a random history), which respect the one-cache-use-per-input rule below.
+// oracle_c03_bytes.go adds the inputs with bytes outside the token alphabet through them.
+type c03EntryRun struct {
+	rep         *Report
+	canon, hist func(src string)
+}
+
+func c03EntryStream(cfg Config) *Report { return c03EntryStart(cfg).rep }
+
+func c03EntryStart(cfg Config) *c03EntryRun {
 	rep := NewReport("C03", "C03-entry", cfg)
 	rep.Rule = "input x history of entry-point calls (plush.Parse, NewTemplate, Template.Parse/Exec/Clone, Render, RenderR, " +
 		"BuffaloRenderer, cache on/off, parser.Parse) on one input / one Template value; inputs: exhaustive short token sequences in " +
@@ -293,7 +303,7 @@ func c03EntryStream(cfg Config) *Report {
 		"only nil / non-nil of the returned errors is compared between steps, not the message text")
 	if ops, src, ok := c03ParseEntryCase(cfg.Arg); ok {
 		c03CheckHistory(rep, ops, src)
-		return rep
+		return &c03EntryRun{rep: rep}
 	}
 	// The template cache is process-global and cannot be emptied. So that every case starts from a cache that
 	// has never seen its input (and therefore replays alone exactly as it ran here), the cache-on steps K/Q are
@@ -350,5 +360,5 @@ func c03EntryStream(cfg Config) *Report {
 			hist(src)
 		}
 	}
-	return rep
+	return &c03EntryRun{rep: rep, canon: canon, hist: hist}
 }
